@@ -21,7 +21,7 @@ LEVEL_NOTE = ("Level order: emulator index 0 = state read as '0' (g resp. u), 1 
 RULE = "(basis, dim, set of noise types, eff-op style); distinct = that + hash of rates; non-trivial = at least one jump operator with non-zero rate"
 ASSUMPTIONS = ["pulser-core's HamiltonianData.lindblad_data is the definition of each channel",
                "a channel is identified with its dissipator superoperator (operators equal up to the usual gauge freedom are the same channel)"]
-REQUIRED = ["noise_models_checked", "dim3_checked", "xy_checked", "per_type_checked"]
+REQUIRED = ["repeat_requests_checked", "noise_models_checked", "dim3_checked", "xy_checked", "per_type_checked"]
 BATCH = 12
 STYLES = ["relaxation", "dephasing", "depolarizing", "eff-random", "eff-transition", "combo", "leak-transition", "leak-random", "leak-combo"]
 
@@ -150,7 +150,7 @@ def run_case(case):
         emu_order = [zero, one] + (["x"] if d == 3 else [])
         perm = [eig.index(s) for s in emu_order]
         P_emu = [m[np.ix_(perm, perm)] for m in P]
-        E = [op.detach().numpy() for op in pd.lindblad_ops]
+        E = [op.detach().numpy().copy() for op in pd.lindblad_ops]  # a copy: a later in-place edit of a shared tensor must not edit the record
         if any(op.shape != (d, d) for op in E):
             viol.append({"key": "C24:jump-operator-has-wrong-shape", "msg": f"{desc}: {[op.shape for op in E]}"})
             continue
@@ -188,6 +188,17 @@ def run_case(case):
                     key = "C24:eff-noise-3x3-only-2x2-block-rebased"
             viol.append({"key": key,
                          "msg": f"{desc}: rel. deviation {err:.3e}", "detail": {"noise_model_kwargs": {k: (np.asarray(v).tolist() if k == 'eff_noise_opers' else v) for k, v in kw.items()} if d * len(ops) < 20 else None}})
+        # history independence: the same noise model asked again (and again) must give the same operators
+        for rep_ in (2, 3):
+            try:
+                E_again = [op.detach().numpy().copy() for op in PulserData(sequence=seq, config=cfg, dt=10.0).lindblad_ops]
+            except Exception as e:
+                viol.append({"key": f"C24:second-request-raises:{type(e).__name__}", "msg": f"{desc}: {e}"[:200]})
+                break
+            cnt["repeat_requests_checked"] = cnt.get("repeat_requests_checked", 0) + 1
+            if len(E_again) != len(E) or any(np.abs(a - b).max() > 0 for a, b in zip(E, E_again)):
+                viol.append({"key": f"C24:jump-operators-depend-on-call-history:{basis}:dim{d}", "msg": f"{desc}: request #{rep_} for the same noise model returns different operators"})
+                break
         # the effective non-Hermitian term used by emu-mps
         G = compute_noise_from_lindbladians([torch.tensor(o) for o in E], dim=d).numpy() if E else np.zeros((d, d))
         Gp = -0.5j * sum((m.conj().T @ m for m in P_emu), np.zeros((d, d), dtype=complex))
